@@ -30,7 +30,12 @@ MANIFEST = {
             'weights). Every function is also run in the multi-party simulator, (m,t) in {(1,0),(3,1),(5,2)} x PRSS on/off over secint, '
             'secfxp, SecFld(101) and GF(2^8): range, shape, secure result type, permutations, derangements (repeated), samples '
             'without repeats, one-hot unit vectors, all parties agree, hangs reported via idle detection/watchdog; the single-call '
-            'functions are compared with the model on shared tapes at m = 3.',
+            'functions are compared with the model on shared tapes at m = 3. _randbelow on a secure field with n = field order '
+            '(runtime._random): randbelow_order_range / randbelow_order_uniform (exists! draw per field value, whatever the other '
+            'senders draw), tied by forcing/logging the senders\' secrets.randbelow draws in the simulator (m=1 exhaustively for '
+            'p <= 13, m=3 random; every draw must be below p exactly) and by 400-draw coverage with PRSS. Aliasing stream: every '
+            'function taking a list is called, the caller\'s list is mutated in place (reverse/overwrite/del/append) before the '
+            'result is awaited, at m=1 (-M1, asynchronous) and m=3; the result must fit the list as passed.',
     'note': 'Trusted: Coq kernel + vm_compute; the hand-written model (value level: secure numbers are their integer values; '
             'runtime.in_prod/scalar_mul/vector_add/vector_sub/prod/from_bits modelled as exact integer arithmetic; single party, '
             'no_async); random_bits is a tape oracle, its own uniformity is C01/C15 not this check. MISSING as theorems (covered only '
@@ -39,10 +44,11 @@ MANIFEST = {
             'distinctness, lists-of-lists shuffle permutation (model corresponded, not proved). np_random_unit_vector not modelled '
             '(no NumPy here). Weighted choices are not applicable to secure fields (field elements have no <; TypeError unrelated '
             'to any defect). _randbelow(st,1) returns the public int 0, so randrange/uniform over a one-point range return public '
-            'numbers (value correct; noted, not counted as violation). The two defects this check found were repaired in /repo: '
-            'F-C33-1 (uniform with round(|a-b|*2^f)=0 returned a or a+2^-f) by commit 554365d (model follows: n = 0 returns a, no '
-            'bits drawn); F-C33-2 (choices with weights on secure fixed-point returned non-members because vector_sub took the '
-            'public 1 unscaled) by commit 4609d39; both cases are now ordinary enumerated cases compared with model and oracle.',
+            'numbers (value correct; noted, not counted as violation). Defects found by this check and repaired in /repo (now ordinary cases): '
+            'F-C33-1 uniform with round(|a-b|*2^f)=0 (554365d), F-C33-2 choices with weights on secure fixed-point (4609d39), '
+            'F-C33-3 sample() late read of its population list (8df6d66). Open: F-C33-4 SecFld(p) with p <= m parties is an '
+            'odd-characteristic extension field on which runtime.from_bits shifts polynomials, so randrange(SecFld(3),3) at m=3 '
+            'fails when the value 2 is drawn.',
     'technique': 'Coq proof over bit-tape model + exhaustive tape-tree correspondence and exact outcome counting',
 }
 
@@ -409,10 +415,218 @@ def multi_party(ctx, ok):
 
 
 
+def order_and_alias(ctx, ok):
+    """(A) _randbelow(SecFld(p), p): the direct path runtime._random -- exact: without PRSS the senders' secrets.randbelow
+    draws are forced/logged in the simulator (m=1 exhaustively, m=3 randomly); the bound of every draw must be p and the
+    result must be the model's field_random p draws.  (B) aliasing: every function taking a list is called, the caller's
+    list is mutated in place before the result is awaited; the result must have the documented structure relative to the
+    list as passed at call time.  m = 1 (-M1, asynchronous) and m = 3."""
+    import signal, time
+    from lib.sim import Sim, Fifo
+    rng = ctx.rng
+
+    def on_alarm(signum, frame):
+        raise Watchdog()
+    old = signal.signal(signal.SIGALRM, on_alarm)
+
+    def one_run(sim, prog, limit=25):
+        """-> list of per-party results, or None on a hang / watchdog"""
+        signal.setitimer(signal.ITIMER_REAL, limit, 5)
+        try:
+            res = sim.run(prog, Fifo(), idle_limit=300)
+        except Watchdog:
+            ctx.extra['sim_aborted'] = True
+            return None
+        finally:
+            signal.setitimer(signal.ITIMER_REAL, 0)
+        return res
+
+    def new_sim(m, t, no_prss):
+        sim = Sim(m, t, no_prss=no_prss, seed=ctx.seed * 977 + 13 * m + no_prss, log_messages=False, track_tasks=False)
+        sim.start()
+        return sim if sim.started else None
+    primes = [3, 5, 7, 11, 13, 101]
+    try:
+        # ---- (A) n == field order ------------------------------------------------------------------------------------
+        exprs, meta = [], []
+        for (m, t) in ((1, 0), (3, 1)):
+            sim = new_sim(m, t, True)
+            if sim is None:
+                ctx.violation('sim-start-failed order-branch m=%d' % m, {})
+                continue
+            for p in primes:
+                if p <= m:
+                    continue      # SecFld(p) needs more than m elements (mpc.SecFld then builds an extension field)
+                draws = list(range(p)) if (m == 1 and p <= 13) else [rng.randrange(p) for _ in range(ctx.n(6, 20))]
+                for r in draws:
+                    for i in range(m):
+                        sim.secrets[i].forced.clear()
+                        sim.secrets[i].forced.append(r if m == 1 else rng.randrange(p))
+                    marks = [len(sim.secrets[i].log) for i in range(m)]
+
+                    async def prog(mpc, mods, pid, p=p):
+                        st = mpc.SecFld(p)
+                        v = mods['mpyc.random'].randrange(st, p)
+                        return [int(await mpc.output(v)), isinstance(v, st)]
+                    res = one_run(sim, prog)
+                    key = {'fn': 'randrange-field-order', 'p': p, 'm': m}
+                    if res is None or not all(isinstance(x, list) for x in res):
+                        ctx.violation('randrange-field-order-hang p=%d m=%d' % (p, m), dict(key, results=str(res)[:200]))
+                        sim.close()
+                        sim = new_sim(m, t, True)
+                        continue
+                    # per sender: the first randbelow is the value drawn by runtime._randoms, the following ones are the
+                    # coefficients of its Shamir sharing (thresha.random_split)
+                    per = [[e for e in sim.secrets[i].log[marks[i]:] if e[0] == 'randbelow'] for i in range(m)]
+                    logs = [pl[0] for pl in per if pl]
+                    ctx.case(dict(key, draws=[e[2] for e in logs]), kind='field-order/m=%d' % m)
+                    if any(x != res[0] for x in res[1:]) or not res[0][1] or not 0 <= res[0][0] < p:
+                        ctx.violation('randrange-shape field-order p=%d m=%d' % (p, m), dict(key, got=res))
+                    if len(logs) != t + 1 or any(e[1] != p for e in logs):
+                        ctx.violation('randrange-nonuniform field-order p=%d m=%d: draws below %s' % (p, m, sorted({e[1] for e in logs})),
+                                      dict(key, got=res[0][0], draws=[list(e) for e in logs],
+                                           why='runtime._random must draw below the field order p from t+1 senders'))
+                    exprs.append('randbelow_order %s %s' % (zlit(p), zlist([e[2] for e in logs])))
+                    meta.append((key, res[0][0]))
+                    if m == 1 and p <= 13 and res[0][0] != r:
+                        ctx.violation('randrange-nonuniform field-order p=%d m=1: draw %d gives %d' % (p, r, res[0][0]), dict(key, draw=r, got=res[0][0]))
+                for i in range(m):
+                    sim.secrets[i].forced.clear()
+            sim.shutdown()
+            sim.close()
+        # SecFld(p) with p <= m is built over an extension field GF(p^d); runtime.from_bits then combines the bits with
+        # polynomial shifts (s <<= 1 multiplies by X, not by 2), so values >= 2 leave the prime subfield
+        sim = new_sim(3, 1, False)
+        if sim is not None:
+            async def prog3(mpc, mods, pid):
+                st = mpc.SecFld(3)
+                return [int(await mpc.output(mods['mpyc.random'].randrange(st, 3))) for _ in range(8)]
+            import logging
+            logging.disable(logging.CRITICAL)      # asyncio logs the exception raised inside output()
+            try:
+                res = one_run(sim, prog3)
+            finally:
+                logging.disable(logging.NOTSET)
+            ctx.case({'fn': 'randrange', 'st': 'SecFld(3)', 'm': 3}, kind='extension-field')
+            if res is None or not all(isinstance(x, list) and all(0 <= a < 3 for a in x) for x in res):
+                ctx.violation('extfield-from_bits randrange SecFld(3) m=3', {'call': 'randrange(SecFld(3), 3) x 8, m=3', 'got': str(res)[:300]})
+            try:
+                sim.close()
+            except Exception:  # noqa
+                pass
+        if ok and exprs:
+            mres = ctx.coq_eval(['MPyC.RandomFns'], exprs, chunk=400, preamble='Open Scope Z_scope.')
+            mism = 0
+            for mv, (key, got) in zip(mres, meta):
+                if mv != got:
+                    mism += 1
+                    ctx.broken.append({'kind': 'correspondence', 'what': 'randbelow_order', 'case': key, 'impl': got, 'model': str(mv)[:100]})
+            ctx.extra['field_order_traces'] = len(exprs) - mism
+            ctx.log('field-order branch: %d draws-forced cases, %d disagreements with the model' % (len(exprs), mism))
+        # ---- (B) aliasing ------------------------------------------------------------------------------------------------
+        POP = [11, 22, 33, 44, 55]
+        MUT = {'reverse': lambda l: l.reverse(), 'overwrite0': lambda l: l.__setitem__(0, 99),
+               'dellast': lambda l: l.__delitem__(-1), 'append': lambda l: l.append(77)}
+        FNS = ['sample', 'sample_all', 'choice', 'choices', 'choices_w', 'random_permutation', 'random_derangement', 'shuffle', 'shuffle_rows']
+        na = 0
+        for (m, t, no_prss) in ((1, 0, False), (3, 1, False)) + (((3, 1, True),) if ctx.tier == 'thorough' else ()):
+            sim = new_sim(m, t, no_prss)
+            for stname in ('secint', 'secfld'):
+                for fn in FNS:
+                    if fn == 'choices_w' and stname == 'secfld':
+                        continue
+                    for mu in MUT:
+                        if sim is None:
+                            sim = new_sim(m, t, no_prss)
+
+                        async def prog(mpc, mods, pid, fn=fn, mu=mu, stname=stname):
+                            mr = mods['mpyc.random']
+                            st = mpc.SecInt(16) if stname == 'secint' else mpc.SecFld(101)
+                            lst = list(POP)
+                            w = [1, 2, 1, 1, 3]
+                            if fn == 'sample':
+                                r = mr.sample(st, lst, 3)
+                            elif fn == 'sample_all':
+                                r = mr.sample(st, lst, 5)
+                            elif fn == 'choice':
+                                r = mr.choice(st, lst)
+                            elif fn == 'choices':
+                                r = mr.choices(st, lst, k=3)
+                            elif fn == 'choices_w':
+                                r = mr.choices(st, lst, weights=w, k=3)
+                            elif fn == 'random_permutation':
+                                r = mr.random_permutation(st, lst)
+                            elif fn == 'random_derangement':
+                                r = mr.random_derangement(st, lst)
+                            elif fn == 'shuffle':
+                                mr.shuffle(st, lst)
+                                r = list(lst)
+                            elif fn == 'shuffle_rows':
+                                rows = [[a, a + 1] for a in POP]
+                                lst = list(rows)
+                                mr.shuffle(st, lst)
+                                r = [list(row) for row in lst]
+                                for row in rows:       # the caller's row objects
+                                    row[0] = 99
+                            MUT[mu](lst)               # the caller mutates ITS list before awaiting the result
+                            if fn == 'choices_w':
+                                MUT[mu](w)
+                            if fn == 'shuffle_rows':
+                                return [[int(a) for a in await mpc.output(row)] for row in r]
+                            if fn == 'choice':
+                                return int(await mpc.output(r))
+                            return [int(a) for a in await mpc.output(r)]
+                        res = one_run(sim, prog)
+                        na += 1
+                        key = {'fn': fn, 'mutation': mu, 'm': m, 'st': stname, 'prss': not no_prss}
+                        ctx.case(key, kind='aliasing/' + fn)
+                        sig = 'aliasing %s mutation=%s' % ('sample' if fn == 'sample_all' else fn, mu)
+                        if res is None or any(isinstance(x, (str, tuple)) for x in res):
+                            ctx.violation(sig, dict(key, got='HANG/EXC ' + str(res)[:200], why='the call never completes after the caller mutated its list'))
+                            try:
+                                sim.close()
+                            except Exception:  # noqa
+                                pass
+                            sim = None
+                            if ctx.extra.get('sim_aborted'):
+                                return
+                            continue
+                        v = res[0]
+                        if any(x != v for x in res[1:]):
+                            ctx.violation('sim-parties-disagree aliasing %s' % fn, dict(key, per_party=res))
+                            continue
+                        if fn in ('sample', 'sample_all'):
+                            k = 3 if fn == 'sample' else 5
+                            good = len(v) == k and len(set(v)) == k and set(v) <= set(POP)
+                        elif fn == 'choice':
+                            good = v in POP
+                        elif fn in ('choices', 'choices_w'):
+                            good = len(v) == 3 and all(a in POP for a in v)
+                        elif fn in ('random_permutation', 'shuffle'):
+                            good = sorted(v) == sorted(POP)
+                        elif fn == 'random_derangement':
+                            good = sorted(v) == sorted(POP) and all(a != b for a, b in zip(v, POP))
+                        else:
+                            good = sorted(v) == sorted([a, a + 1] for a in POP)
+                        if not good:
+                            ctx.violation(sig, dict(key, got=v, population_at_call_time=POP,
+                                                    why='result does not have the documented structure relative to the list as passed'))
+            if sim is not None:
+                sim.shutdown()
+                sim.close()
+        ctx.extra['aliasing_cases'] = na
+        ctx.log('aliasing stream: %d (function, mutation, config) cases' % na)
+    finally:
+        signal.setitimer(signal.ITIMER_REAL, 0)
+        signal.signal(signal.SIGALRM, old)
+
+
 def run(ctx):
     import sys
     ok = ctx.build(['MPyC.RandomFns']) and ctx.check_props()
     multi_party(ctx, ok)       # first: the simulator loads and unloads its own copies of the package
+    if not ctx.extra.get('sim_aborted'):
+        order_and_alias(ctx, ok)
     if ctx.extra.get('sim_aborted'):
         ctx.log('a simulator run was aborted by the watchdog (reported); skipping the single-party part')
         return
@@ -816,6 +1030,27 @@ def run(ctx):
                 ctx.violation('sample_range-shape %s live' % stname, {'got': s2})
             if any(a not in xs for a in c):
                 ctx.violation('choices_w-shape %s live' % stname, {'x': xs, 'got': c})
+    # n == field order (direct path runtime._random, here with PRSS): every field value must occur -- 400 draws for p <= 13
+    # (a given value is missed with probability < 13*(12/13)^400 ~ 1e-13), and values in [64, 101) for p = 101
+    for p_ in (3, 5, 7, 11, 13, 101):
+        stp = mpc.SecFld(p_)
+        N = 400 if p_ <= 13 else 120
+        seen = set()
+        for j in range(N):
+            fn = (lambda: mr.randrange(stp, p_)) if j % 3 else (lambda: mr.randint(stp, 0, p_ - 1))
+            v = int(mpc.run(mpc.output(fn())))
+            seen.add(v)
+            nr += 1
+            if not 0 <= v < p_:
+                ctx.violation('randrange-shape field-order p=%d live' % p_, {'p': p_, 'got': v})
+        ctx.case({'fn': 'randrange-field-order-live', 'p': p_, 'draws': N}, kind='field-order/live')
+        missing = [v for v in (range(p_) if p_ <= 13 else [0]) if v not in seen]
+        if missing or (p_ == 101 and not any(v >= 64 for v in seen)):
+            ctx.violation('randrange-nonuniform field-order p=%d live: values never drawn' % p_,
+                          {'p': p_, 'draws': N, 'missing': missing or 'all of [64, 101)', 'seen_max': max(seen)})
+        sm = opened(stp, mr.sample(stp, range(p_), 2))
+        if len(set(sm)) != 2 or not all(0 <= a < p_ for a in sm):
+            ctx.violation('sample_range-shape field-order p=%d live' % p_, {'p': p_, 'got': sm})
     # secure field of order n: direct path
     for _ in range(5):
         r = opened(secfld, mr._randbelow(secfld, P))
